@@ -106,13 +106,14 @@ class Ctx:
             return
         os.makedirs(self.bins, exist_ok=True)
         t = time.time()
-        rc, out, err = sh(["go", "build", "-tags", "verif", "-o", self.bins + "/",
+        xf = os.environ.get("VERIF_GOBUILD_FLAGS", "").split()      # e.g. -race, for the smoke runs of DESIGN section 1
+        rc, out, err = sh(["go", "build"] + xf + ["-tags", "verif", "-o", self.bins + "/",
                            "./cmd/prebuild", "./cmd/aa-log"], cwd=REPO, timeout=900)
         if rc != 0:
             raise HarnessError("cannot build /repo with -tags verif:\n" + out + err)
         if worker:
             wdir = os.path.join(VERIF, "worker")
-            args = ["go", "build", "-tags", "verif", "-o", self.bins + "/vworker"]
+            args = ["go", "build"] + xf + ["-tags", "verif", "-o", self.bins + "/vworker"]
             if os.path.realpath(REPO) != "/repo":
                 # trial runs against a scratch copy of the repository: same worker sources, other replace target
                 mf = os.path.join(self.scratch, "worker.mod")
